@@ -64,6 +64,7 @@ Proof.
   destruct C as (E & C). rewrite (G u (or_introl eq_refl)).
   unfold update_monitor.
   replace (uid u =? mid base + 1) with true by (symmetry; apply Z.eqb_eq; exact E).
+  rewrite andb_false_r.
   change {| mid := uid u; mst := apply (mst base) u |} with (upd base u).
   apply IH; auto. intros u' I. apply G. right. exact I.
 Qed.
@@ -470,6 +471,93 @@ Proof.
   exists r. split; auto. rewrite <- M. apply recover_inv. apply sinv_view. exact SI.
 Qed.
 
+(** * Recovery from a store that holds only SOME of the updates (asynchronous durability) *)
+Definition present (st : mstore) (i : Z) : Prop := exists v, get st (KUpd m i) = Some v.
+
+(** like [inv], but the updates of [pend] need not all be present *)
+Record ainv (st : mstore) (base : monitor) (pend : list Up) : Prop := {
+  a_nodup : NoDup (map fst st);
+  a_mon : exists sent, get st (KMon m) = Some (VMon sent base);
+  a_chain : chain base pend;
+  a_legacy : forall u, In u pend -> uid u < LEGACY_ID;
+  a_above : forall i v, get st (KUpd m i) = Some v -> mid base < i ->
+            exists u, In u pend /\ uid u = i /\ v = VUpd u }.
+
+Lemma chain_in_range : forall pend base u, chain base pend -> In u pend ->
+  mid base < uid u <= mid base + Z.of_nat (List.length pend).
+Proof.
+  induction pend as [|u0 r IH]; intros base u C I; [contradiction|].
+  destruct C as (E0 & C). destruct I as [->|I]; cbn [List.length]; [lia|].
+  specialize (IH _ _ C I). cbn in IH. lia.
+Qed.
+
+Lemma chain_head_unique base u r u' : chain base (u :: r) -> In u' (u :: r) -> uid u' = uid u -> u' = u.
+Proof.
+  intros (E & C) [<-|I] Eu; auto. pose proof (chain_in_range _ _ _ C I) as H. cbn in H. lia.
+Qed.
+
+Lemma apply_gappy (st : mstore) : forall pend base L,
+  chain base pend -> (forall u, In u pend -> uid u < LEGACY_ID) ->
+  StronglySorted Z.lt L ->
+  (forall i, In i L -> mid base < i /\ exists u, In u pend /\ uid u = i /\ get st (KUpd m i) = Some (VUpd u)) ->
+  (forall u, In u pend -> present st (uid u) -> In (uid u) L) ->
+  exists c, apply_updates _ _ apply uid st m base L = ROk (mem base (firstn c pend)) /\
+            (forall u, In u (firstn c pend) -> present st (uid u)) /\
+            (forall u, nth_error pend c = Some u -> ~ present st (uid u)).
+Proof.
+  induction pend as [|u r IH]; intros base L C Leg SL HL HP.
+  - destruct L as [|i L'].
+    + exists 0%nat. cbn. repeat split; auto; intros; try contradiction; discriminate.
+    + exfalso. destruct (HL i (or_introl eq_refl)) as (_ & u & [] & _).
+  - destruct L as [|i L'].
+    + exists 0%nat. cbn. repeat split; auto; [intros ? []|].
+      intros u0 E P. inversion E; subst u0. apply (HP u (or_introl eq_refl)) in P. contradiction.
+    + destruct (HL i (or_introl eq_refl)) as (Hi & u' & Iu' & Eu' & Gu').
+      pose proof C as (E & C').
+      apply StronglySorted_inv in SL. destruct SL as (SL' & FL). rewrite Forall_forall in FL.
+      destruct (Z.eq_dec i (mid base + 1)) as [Ei|Ni].
+      * (* the next consecutive update is present: apply it *)
+        assert (u' = u) by (eapply chain_head_unique; eauto; lia). subst u'.
+        cbn [apply_updates]. rewrite Gu'. unfold update_monitor.
+        replace (uid u =? mid base + 1) with true by (symmetry; apply Z.eqb_eq; lia).
+        rewrite andb_false_r. change {| mid := uid u; mst := apply (mst base) u |} with (upd base u).
+        destruct (IH (upd base u) L' C' (fun x Ix => Leg x (or_intror Ix)) SL') as (c & Hc & Hp & Hn).
+        -- intros j Ij. specialize (FL _ Ij). destruct (HL j (or_intror Ij)) as (_ & uj & Iuj & Euj & Guj).
+           split; [cbn; lia|]. exists uj. repeat split; auto.
+           destruct Iuj as [<-|Iuj]; auto. lia.
+        -- intros x Ix Px. destruct (HP x (or_intror Ix) Px) as [Ex|Ix']; auto.
+           pose proof (chain_in_range _ _ _ C' Ix) as R. cbn in R. lia.
+        -- exists (S c). cbn [firstn nth_error]. split; [exact Hc|]. split; auto.
+           intros x [<-|Ix]; auto. exists (VUpd u). rewrite Eu'. exact Gu'.
+      * (* a gap: stop here *)
+        cbn [apply_updates]. rewrite Gu'.
+        replace (uid u' =? LEGACY_ID) with false by (symmetry; apply Z.eqb_neq; specialize (Leg _ Iu'); lia).
+        replace (uid u' =? mid base + 1) with false by (symmetry; apply Z.eqb_neq; lia).
+        cbn [negb andb]. exists 0%nat. cbn. repeat split; auto; [intros ? []|].
+        intros u0 E0 P. inversion E0; subst u0. apply (HP u (or_introl eq_refl)) in P.
+        destruct P as [P|P]; [lia|]. specialize (FL _ P). lia.
+Qed.
+
+(** Recovery from any such store returns the in-memory monitor obtained by applying the longest
+    consecutive run of present updates: never a panic, never an error. *)
+Lemma recover_gappy st base pend : ainv st base pend ->
+  exists c, read_with_updates _ _ apply uid st m = ROk (mem base (firstn c pend)) /\
+            (forall u, In u (firstn c pend) -> present st (uid u)) /\
+            (forall u, nth_error pend c = Some u -> ~ present st (uid u)).
+Proof.
+  intros [ND (sent & Hm) C Leg A]. unfold read_with_updates. rewrite Hm.
+  apply apply_gappy; auto.
+  - apply sorted_le_nodup_lt; [apply zsort_sorted|].
+    eapply Permutation_NoDup; [apply zsort_perm|]. apply NoDup_filter. apply upd_ids_nodup. exact ND.
+  - intros i I. apply (Permutation_in _ (Permutation_sym (zsort_perm _))) in I.
+    apply filter_In in I. destruct I as (I & Hi). apply upd_ids_in in I. destruct I as (v & I).
+    apply in_get in I; auto. destruct (A _ _ I ltac:(lia)) as (u & Iu & Eu & ->).
+    split; [lia|]. eauto.
+  - intros u Iu (v & G). apply (Permutation_in _ (zsort_perm _)). apply filter_In. split.
+    + apply upd_ids_in. exists v. apply get_in. exact G.
+    + pose proof (chain_in_range _ _ _ C Iu). lia.
+Qed.
+
 (** Clean-up safety, structurally: (a) the in-range clean-up of [update_persisted_channel] comes only
     after the write of a full monitor in the same call and removes only ids up to that monitor's id;
     (b) [cleanup_stale_updates] removes only ids up to the id of the monitor it read for that key.
@@ -504,13 +592,3 @@ Qed.
 
 End Proofs.
 
-(** * H1: out-of-order durability on an asynchronous store *)
-Lemma async_refuted :
-  let ex_apply := fun (st : list Z) (u : Z) => u :: st in
-  let ex_uid := fun (u : Z) => u in
-  let ex_mon := fun (i : Z) (st : list Z) => {| mid := i; mst := st |} in
-  let ex_hist := [CNew 7 (ex_mon 0 []); CUpdate 7 (Some 1) (ex_mon 1 [1]); CUpdate 7 (Some 2) (ex_mon 2 [2; 1])] in
-  per_key_ok (list Z) Z (issued (list Z) Z ex_uid 5 empty_state ex_hist) [true; false; true] [] = true /\
-  read_with_updates (list Z) Z ex_apply ex_uid
-    (view mkey_eqb (async_crash_state (list Z) Z ex_uid 5 ex_hist [true; false; true]) []) 7 = RPanic.
-Proof. vm_compute. split; reflexivity. Qed.
